@@ -102,6 +102,32 @@ SEEDS = [
  ("S115", "round5/R", 6, "C01", "compile.rs compile_func_decl: per-parameter locals (signed, signedness_specified) hoisted out of the loop", "a plain char parameter after a signed parameter, used where signedness matters"),
  ("S116", "round5/R", 7, "C06", "compile.rs syntax_error/compiler_error/warning: char scans replaced by lines().count() - 1", "a semantic error whose token is in column 0 of a line other than the first"),
  ("S117", "round5/R", 8, "C09", "compile.rs compile_quoted_string_ex: escapes applied by successive replace()", "an escaped backslash directly followed by one of 0 n r a b t f v (\"C:\\\\new\")"),
+ ("S118", "round6/T", 1, "C01", "generate_switch: flags_from_selector = false hoisted out of the per-value loop", "selector in A, first group case 1: case 0:, selector value 0: CMP #0 lost"),
+ ("S119", "round6/T", 2, "C01", "new helper restore_saved_y(): flags = Y lost at the assignment call site", "v = p[2]; if (v) branches on the restored Y"),
+ ("S120", "round6/T", 3, "C01", "generate_expr: sign_extended factored out, the element offset dropped", "s = t[1] with a table of signed chars: 0x00fe instead of 0xfffe"),
+ ("S121", "round6/T", 4, "C10", "generate_sizeof: ShortPtr moved into the CharPtr arm", "short t[5]; X = sizeof(t) gives 5 in a statement (10 when folded in a constant context)"),
+ ("S122", "round6/T", 5, "C01", "compile(): signed_chars && !unsigned_chars (unsigned_chars is always true)", "--fsigned_char becomes a no-op"),
+ ("S123", "round6/T", 6, "C01", "comma operator: the purge of deferred ++ / -- between the two operands removed", "i++, j = i gives j = old i"),
+ ("S124", "round6/T", 7, "C01", "generate_plusplus AbsoluteX decrement: DEC lo / BNE / DEC hi", "t[X]-- on a short array with low byte 0 or 1"),
+ ("S125", "round6/T", 8, "C12", "compute_functions_actually_in_use rewritten as a work list; handlers inserted, their callees never visited", "a function called only from an interrupt handler is dropped"),
+ ("S126", "round6/U", 1, "C07", "cpp.rs: nested #ifndef in a non-active region: State::Skip -> State::Inactive", "the #else of an #ifndef nested in an unselected #if becomes active"),
+ ("S127", "round6/U", 2, "C06", "cpp.rs splice loop: line += 1 dropped", "every line after a backslash-newline splice is numbered one too low"),
+ ("S128", "round6/U", 3, "C10", "compile.rs parse_calc gte: >= -> >", "constant a >= b with equal operands"),
+ ("S129", "round6/U", 4, "C09", "compile.rs: \\v code 11 -> 12", "a literal containing \\v"),
+ ("S130", "round6/U", 5, "C03", "assemble.rs check_branches: distance > 127 -> > 128", "a forward branch over exactly 128 bytes"),
+ ("S131", "round6/U", 6, "C02", "assemble.rs optimize: arm JSR | JMP -> JMP", "-O1: i = 1; f(); i = 1; the reload after the call is removed"),
+ ("S132", "round6/U", 7, "C18", "generate_statements.rs: one NOP dropped in csleep(8)", "csleep(8) takes 6 cycles"),
+ ("S133", "round6/U", 8, "C15", "generate_conditions.rs swapped-operand table: Gte => Lte -> Gte => Lt", "if (5 < X) differs from if (X > 5) when X is 5"),
+ ("S134", "round6/U", 9, "C01", "generate_arithm.rs: BNE -> BEQ in the 16-bit decrement of arr[X]", "short arr[4]; arr[X]--"),
+ ("S135", "round6/U", 10, "C17", "generate_asm.rs superchip write-port arm: STA|STX|STY -> STA|STX", "superchip char v; v = Y; emits STY v+128"),
+ ("S136", "round6/V", 1, "C03", "check_branches resumes at the repaired branch (long loop back edge x if (c) break; shortcut)", "BNE .dowhileend1 left at +130 bytes"),
+ ("S137", "round6/V", 2, "C01", "postfix ++ / --: !second_time replaced by !high_byte (two-pass 16-bit generation x postponed ++ in a shift operand)", "ptr = Y | (X++ << 8) emits INX twice"),
+ ("S138", "round6/V", 3, "C17", "compound-assign fast path x += 1 / x -= 1 as INC / DEC (split-port RAM x compound assignment)", "superchip char v; v += 1 gives INC v+128"),
+ ("S139", "round6/V", 4, "C13", "generate_continue / generate_switch: refactor of the 'label used' marking, the if-continue path forgotten (switch x if (c) continue; x do-while)", ".dowhilecondition1 never defined; check_branches panics"),
+ ("S140", "round6/V", 5, "C12", "compute_functions_actually_in_use: handlers inserted, not traversed (interrupts x in-use x inline)", "JSR beep emitted in irq, beep dropped"),
+ ("S141", "round6/V", 6, "C06", "cpp.rs: last_line_unterminated set for every line (#include x header ending in #endif without newline)", "error reported on line 5 instead of 4"),
+ ("S142", "round6/V", 7, "C18", "assemble.rs optimize: new PHA-then-PLA peephole without the protected check (optimisation level x csleep(7))", "-O1: csleep(7) disappears"),
+ ("S143", "round6/V", 8, "C14", "generate_function_call: flags reset only after real JSR calls (inline expansion x flags belief)", "X = 3; f(); if (X) tested without CPX #0 after the inlined LDY #7"),
 ]
 CONTROLS = [("K01", "round2/E", 1, "cpp.rs: three-valued State enum replaced by two booleans"), ("K02", "round2/E", 2, "renamed generated local labels"),
             ("K03", "round2/E", 3, "new peephole rule: unreachable instruction after RTS/RTI removed"), ("K04", "round2/E", 4, "different instruction selection for X = Y / Y = X while the accumulator is in use"),
@@ -112,18 +138,20 @@ CONTROLS = [("K01", "round2/E", 1, "cpp.rs: three-valued State enum replaced by 
             ("K15", "round5/P", 9, "arr[Y] = X uses STX arr,Y for a real zero-page char array"), ("K16", "round5/P", 10, "csleep(9) is PHA/PLA/NOP, all protected"),
             ("K17", "round5/Q", 9, "check_branches: backward branches may reach 128 bytes"), ("K18", "round5/Q", 10, "generate_switch: the dead fall-through JMP after a case ending with break is omitted"),
             ("K19", "round5/R", 9, "one helper builds both Pratt tables"), ("K20", "round5/R", 10, "#ifdef / #ifndef branches merged (is_some() != wanted)"),
+            ("K21", "round6/T", 9, "short / pointer - 0xNN00: SBC #0 on the low byte skipped"), ("K22", "round6/T", 10, "signed char >> 7 as CMP #128 / LDA #0 / ADC #255 / EOR #255"),
+            ("K23", "round6/V", 9, "check_branches: backward reach 128, forward 127"), ("K24", "round6/V", 10, "the 'continue label used' marking refactored completely, with a shared helper"),
             ("K09", "round3/I", 7, "csleep(9): NOP; NOP; DEC DUMMY instead of DEC DUMMY; NOP; NOP"), ("K10", "round3/J", 7, "several small refactors of -D parsing, undefine, #ifdef state match, folding")]
 REBASED = {("round2/C", 2): "rebased/C_patch_2.diff", ("round3/G", 6): "rebased/G_patch_6.diff", ("round3/J", 7): "rebased/J_patch_7.diff"}
 
 conf = {}
-for fn in ("seed_confirm2.log", "seed_confirm3.log", "seed_confirm4.log", "seed_confirm5.log"):
+for fn in ("seed_confirm2.log", "seed_confirm3.log", "seed_confirm4.log", "seed_confirm5.log", "seed_confirm6.log"):
     for l in open(os.path.join(W, fn)):
         try:
             o = json.loads(l)
         except ValueError:
             continue
         d = o["dir"].rstrip("/")
-        key = {"/tmp/c2r": "round2/C"}.get(d, ("round2/" if "wt2_" in d else "round3/" if "wt3_" in d else "round4/" if "wt4_" in d else "round5/") + d[-1])
+        key = {"/tmp/c2r": "round2/C"}.get(d, ("round2/" if "wt2_" in d else "round3/" if "wt3_" in d else "round4/" if "wt4_" in d else "round5/" if "wt5_" in d else "round6/") + d[-1])
         conf[(key, int(o["n"]))] = o
 farm = {}
 for fn in sys.argv[1:]:
